@@ -134,6 +134,9 @@ func (m *Sem) Text() string {
 type PrecLevel struct {
 	Assoc string `json:"assoc"` // left right nonassoc precedence
 	Terms []int  `json:"terms"`
+	// Tag: "%left <tag> symbols": the value tag of the tokens that are
+	// declared by this line (Decl "prec"); tokens declared before keep theirs
+	Tag string `json:"tag,omitempty"`
 }
 
 type Field struct {
@@ -229,7 +232,7 @@ func (s *Spec) Clone() *Spec {
 	}
 	c.Prec = make([]PrecLevel, len(s.Prec))
 	for i, p := range s.Prec {
-		c.Prec[i] = PrecLevel{Assoc: p.Assoc, Terms: append([]int{}, p.Terms...)}
+		c.Prec[i] = PrecLevel{Assoc: p.Assoc, Terms: append([]int{}, p.Terms...), Tag: p.Tag}
 	}
 	return &c
 }
@@ -346,145 +349,193 @@ func (s *Spec) Render(o RenderOpts) string {
 	if !s.NoUnion {
 		toks = append(toks, tok{text: "%union {" + s.Union + "}", kind: kPunct, nl: true})
 	}
-	// %token lines: group consecutive terminals with the same tag on one
-	// line or split them, by layout choice.
-	var pending []Term
-	var late []Term
-	mode := func(t Term) int {
-		if t.IsLit() {
+	declTokens := func() {
+		// %token lines: group consecutive terminals with the same tag on one
+		// line or split them, by layout choice.
+		var pending []Term
+		var late []Term
+		mode := func(t Term) int {
+			if t.IsLit() {
+				return 0
+			}
+			if t.RedeclMode != 0 {
+				return t.RedeclMode
+			}
+			if t.Redecl && t.Code != 0 {
+				return 1
+			}
 			return 0
 		}
-		if t.RedeclMode != 0 {
-			return t.RedeclMode
+		// the tag shown by the first declaration
+		firstTag := func(t Term) string {
+			if m := mode(t); m == 2 || m == 3 {
+				return ""
+			}
+			return t.Tag
 		}
-		if t.Redecl && t.Code != 0 {
-			return 1
-		}
-		return 0
-	}
-	// the tag shown by the first declaration
-	firstTag := func(t Term) string {
-		if m := mode(t); m == 2 || m == 3 {
-			return ""
-		}
-		return t.Tag
-	}
-	second := func(t Term) {
-		m := mode(t)
-		w("%token")
-		if m != 1 && t.Tag != "" && !t.TagViaType {
-			p("<")
-			w(t.Tag)
-			p(">")
-		}
-		w(t.Name)
-		if m != 2 && t.Code != 0 {
-			w(fmt.Sprint(t.Code))
-		}
-		nl()
-	}
-	flush := func() {
-		if len(pending) == 0 {
-			return
-		}
-		w("%token")
-		if firstTag(pending[0]) != "" && !pending[0].TagViaType {
-			p("<")
-			w(pending[0].Tag)
-			p(">")
-		}
-		for _, t := range pending {
-			termTok(t)
-			if m := mode(t); t.Code != 0 && !t.IsLit() && (m == 0 || m == 2) {
+		second := func(t Term) {
+			m := mode(t)
+			w("%token")
+			if m != 1 && t.Tag != "" && !t.TagViaType {
+				p("<")
+				w(t.Tag)
+				p(">")
+			}
+			w(t.Name)
+			if m != 2 && t.Code != 0 {
 				w(fmt.Sprint(t.Code))
 			}
+			nl()
 		}
-		nl()
-		for _, t := range pending {
-			if mode(t) != 0 {
-				if t.RedeclLate {
-					late = append(late, t)
-				} else {
-					second(t)
+		flush := func() {
+			if len(pending) == 0 {
+				return
+			}
+			w("%token")
+			if firstTag(pending[0]) != "" && !pending[0].TagViaType {
+				p("<")
+				w(pending[0].Tag)
+				p(">")
+			}
+			for _, t := range pending {
+				termTok(t)
+				if m := mode(t); t.Code != 0 && !t.IsLit() && (m == 0 || m == 2) {
+					w(fmt.Sprint(t.Code))
 				}
 			}
-		}
-		pending = nil
-	}
-	for _, t := range s.Terms {
-		if t.Decl != "token" {
-			continue
-		}
-		// yaccgo reads a character literal that directly follows a token name
-		// as that token's alias (Parser.go:parseTokendef), so a literal never
-		// follows a name on the same %token line
-		aliasPos := len(pending) > 0 && t.IsLit() && !pending[len(pending)-1].IsLit()
-		if len(pending) > 0 && (firstTag(pending[0]) != firstTag(t) || pending[0].TagViaType || t.TagViaType || aliasPos || L.Choice(2) == 0) {
-			if firstTag(pending[0]) == firstTag(t) {
-				st.SplitDecls++
+			nl()
+			for _, t := range pending {
+				if mode(t) != 0 {
+					if t.RedeclLate {
+						late = append(late, t)
+					} else {
+						second(t)
+					}
+				}
 			}
-			flush()
+			pending = nil
 		}
-		pending = append(pending, t)
-	}
-	flush()
-	for _, t := range late {
-		second(t)
-	}
-	if s.EOFAlias != "" {
-		w("%token")
-		w(s.EOFAlias)
-		w("-1")
-		nl()
-	}
-	// precedence lines
-	for _, l := range s.Prec {
-		w("%" + l.Assoc)
-		for _, t := range l.Terms {
-			termTok(s.Terms[t])
+		for _, t := range s.Terms {
+			if t.Decl != "token" {
+				continue
+			}
+			// yaccgo reads a character literal that directly follows a token name
+			// as that token's alias (Parser.go:parseTokendef), so a literal never
+			// follows a name on the same %token line
+			aliasPos := len(pending) > 0 && t.IsLit() && !pending[len(pending)-1].IsLit()
+			if len(pending) > 0 && (firstTag(pending[0]) != firstTag(t) || pending[0].TagViaType || t.TagViaType || aliasPos || L.Choice(2) == 0) {
+				if firstTag(pending[0]) == firstTag(t) {
+					st.SplitDecls++
+				}
+				flush()
+			}
+			pending = append(pending, t)
 		}
-		nl()
-	}
-	// %type lines (one per nonterminal, or grouped by tag)
-	var pn []NonTerm
-	flushN := func() {
-		if len(pn) == 0 {
-			return
+		flush()
+		for _, t := range late {
+			second(t)
 		}
-		w("%type")
-		p("<")
-		w(pn[0].Tag)
-		p(">")
-		for _, n := range pn {
-			w(n.Name)
-		}
-		nl()
-		pn = nil
-	}
-	for _, n := range s.NTs {
-		if n.Tag == "" {
-			continue
-		}
-		if len(pn) > 0 && (pn[0].Tag != n.Tag || L.Choice(2) == 0) {
-			flushN()
-		}
-		pn = append(pn, n)
-	}
-	flushN()
-	for _, t := range s.Terms {
-		if t.TagViaType && t.Tag != "" && !t.IsLit() && t.Decl == "token" {
-			w("%type")
-			p("<")
-			w(t.Tag)
-			p(">")
-			w(t.Name)
+		if s.EOFAlias != "" {
+			w("%token")
+			w(s.EOFAlias)
+			w("-1")
 			nl()
 		}
 	}
-	if !(s.OmitStart && s.NTs[s.Start].Name == "start") {
-		w("%start")
-		w(s.NTs[s.Start].Name)
-		nl()
+	declPrec := func() {
+		// precedence lines
+		for _, l := range s.Prec {
+			w("%" + l.Assoc)
+			if l.Tag != "" {
+				p("<")
+				w(l.Tag)
+				p(">")
+			}
+			for _, t := range l.Terms {
+				termTok(s.Terms[t])
+			}
+			nl()
+		}
+	}
+	declTypes := func() {
+		// %type lines (one per nonterminal, or grouped by tag)
+		var pn []NonTerm
+		flushN := func() {
+			if len(pn) == 0 {
+				return
+			}
+			w("%type")
+			p("<")
+			w(pn[0].Tag)
+			p(">")
+			for _, n := range pn {
+				w(n.Name)
+			}
+			nl()
+			pn = nil
+		}
+		for _, n := range s.NTs {
+			if n.Tag == "" {
+				continue
+			}
+			if len(pn) > 0 && (pn[0].Tag != n.Tag || L.Choice(2) == 0) {
+				flushN()
+			}
+			pn = append(pn, n)
+		}
+		flushN()
+	}
+	declTokenTypes := func() {
+		for _, t := range s.Terms {
+			if t.TagViaType && t.Tag != "" && !t.IsLit() && t.Decl == "token" {
+				w("%type")
+				p("<")
+				w(t.Tag)
+				p(">")
+				w(t.Name)
+				nl()
+			}
+		}
+	}
+	declStart := func() {
+		if !(s.OmitStart && s.NTs[s.Start].Name == "start") {
+			w("%start")
+			w(s.NTs[s.Start].Name)
+			nl()
+		}
+	}
+	// the order of the declaration blocks is layout as well. A precedence line
+	// may come before the %token lines unless it carries a tag and names a
+	// token that a %token line declares (the line's tag would then reach it).
+	precFirstOK := true
+	for _, l := range s.Prec {
+		for _, t := range l.Terms {
+			if l.Tag != "" && s.Terms[t].Decl == "token" {
+				precFirstOK = false
+			}
+		}
+	}
+	order := []func(){declTokens, declPrec, declTypes, declTokenTypes, declStart}
+	switch L.Choice(6) {
+	case 1:
+		order = []func(){declStart, declTokens, declPrec, declTypes, declTokenTypes}
+	case 2:
+		order = []func(){declTypes, declTokens, declPrec, declTokenTypes, declStart}
+	case 3:
+		order = []func(){declStart, declTypes, declTokens, declPrec, declTokenTypes}
+	case 4:
+		if precFirstOK {
+			order = []func(){declPrec, declTokens, declTypes, declTokenTypes, declStart}
+		}
+	case 5:
+		if precFirstOK {
+			order = []func(){declTypes, declStart, declPrec, declTokens, declTokenTypes}
+		} else {
+			order = []func(){declTypes, declStart, declTokens, declPrec, declTokenTypes}
+		}
+	}
+	for _, f := range order {
+		f()
 	}
 	p("%%")
 	nl()
@@ -601,5 +652,31 @@ func pickSep(L Layout, wantNL bool, must bool, st *LayoutStats) string {
 		return base
 	default:
 		return "\n\n"
+	}
+}
+
+// TagPrecLines gives some precedence lines a value tag (chosen by pick) and
+// sets the tag of the tokens declared only on such a line accordingly.
+// Character literals declared there get the tag as well.
+func (s *Spec) TagPrecLines(choose func() bool, pick func() string) {
+	for li := range s.Prec {
+		l := &s.Prec[li]
+		l.Tag = ""
+		if choose() {
+			l.Tag = pick()
+		}
+	}
+	s.syncPrecTags()
+}
+
+// syncPrecTags: a token that no %token line declares is declared by the
+// precedence line that names it and has that line's tag.
+func (s *Spec) syncPrecTags() {
+	for _, l := range s.Prec {
+		for _, t := range l.Terms {
+			if s.Terms[t].Decl != "token" {
+				s.Terms[t].Tag = l.Tag
+			}
+		}
 	}
 }
